@@ -475,6 +475,7 @@ DEFAULT_FALLBACKS = {
     r'C0[19]:arith:(feeding|ci|trait)|c01_arith_feeding|C09:arith:(extend|from_iter)': _fb('confirm_feeding'),
     r'C06:(interval_bounds|t_value|z_value|quantile)': _fb('confirm_critical_value'),
     r'history-dependent|quantile_per_call|history_independent': _fb('confirm_history'),
+    r'ok-with-nan-or-inverted-bounds': _fb('confirm_wellformed'),
 }
 
 
